@@ -1,3 +1,8 @@
+pub mod c34;
+pub mod c36;
+pub mod c38;
+pub mod util;
+
 pub fn all() -> Vec<&'static dyn simcore::Property> {
-    vec![]
+    vec![&c34::C34, &c36::C36, &c38::C38]
 }
